@@ -249,3 +249,41 @@ Theorem C08_ber_decode_cost_bound_acyclic :
     (snd (ber_decode_cost numeric fuel e t bs) <= Kber e d t * (N.of_nat (length bs) + 1))%N.
 Proof. exact ber_decode_cost_bound_acyclic. Qed.
 Print Assumptions C08_ber_decode_cost_bound_acyclic.
+(** ------------------------------------------------------------------
+    OER work bound (Oer/OerCost.v, OerCostProofs.v): [oer_dec_cost] is the OER decoder model in a cost monad (one step
+    per primitive read, loop iteration and recursive decode call); it erases to [oer_dec]; for EVERY input octet string,
+    accepted or rejected, the cost is at most [Ko e fuel t * (length input + 1)] when no SEQUENCE OF / SET OF reached
+    from the type has a zero-width element ([no_zero_width_elements], decidable).  [Ko] is computed by abstract
+    interpretation of the decoder (decoded quantities never enter it: each iteration is paid by the octet it consumes).
+    Without the predicate no linear bound holds: four octets under SEQUENCE OF NULL already exceed [Ko * 5] (open
+    finding oer-zero-width-array).  OPEN: fuel-stability of [Ko]; a fuel-independent constant for recursive types.
+    (statements = the types of the theorems of Oer/OerCostProofs.v; written out in notes/OER-cost.md) *)
+From Asn1V Require Oer.OerCost Oer.OerCostProofs Oer.OerCostEx.
+
+Theorem C08_oer_dec_cost_erases : ltac:(let T := type of Asn1V.Oer.OerCostProofs.oer_dec_cost_erases in exact T).
+Proof. exact Asn1V.Oer.OerCostProofs.oer_dec_cost_erases. Qed.
+Print Assumptions C08_oer_dec_cost_erases.
+
+Theorem C08_oer_decode_cost_erases : ltac:(let T := type of Asn1V.Oer.OerCostProofs.oer_decode_cost_erases in exact T).
+Proof. exact Asn1V.Oer.OerCostProofs.oer_decode_cost_erases. Qed.
+Print Assumptions C08_oer_decode_cost_erases.
+
+Theorem C08_oer_dec_cost_bound : ltac:(let T := type of Asn1V.Oer.OerCostProofs.oer_dec_cost_bound in exact T).
+Proof. exact Asn1V.Oer.OerCostProofs.oer_dec_cost_bound. Qed.
+Print Assumptions C08_oer_dec_cost_bound.
+
+Theorem C08_oer_decode_cost_bound : ltac:(let T := type of Asn1V.Oer.OerCostProofs.oer_decode_cost_bound in exact T).
+Proof. exact Asn1V.Oer.OerCostProofs.oer_decode_cost_bound. Qed.
+Print Assumptions C08_oer_decode_cost_bound.
+
+Theorem C08_oer_dec_cost_bound_consumed : ltac:(let T := type of Asn1V.Oer.OerCostProofs.oer_dec_cost_bound_consumed in exact T).
+Proof. exact Asn1V.Oer.OerCostProofs.oer_dec_cost_bound_consumed. Qed.
+Print Assumptions C08_oer_dec_cost_bound_consumed.
+
+Theorem C08_oer_dec_cost_zero_width_refuted : ltac:(let T := type of Asn1V.Oer.OerCostProofs.oer_dec_cost_zero_width_refuted in exact T).
+Proof. exact Asn1V.Oer.OerCostProofs.oer_dec_cost_zero_width_refuted. Qed.
+Print Assumptions C08_oer_dec_cost_zero_width_refuted.
+
+Example C08_oer_cost_bound_instance : ltac:(let T := type of Asn1V.Oer.OerCostEx.oer_cost_bound_instance in exact T).
+Proof. exact Asn1V.Oer.OerCostEx.oer_cost_bound_instance. Qed.
+Print Assumptions C08_oer_cost_bound_instance.
